@@ -386,7 +386,7 @@ def c17(tier, seed, replay, keep):
     return engine_check("C17", tier, seed, replay, scen.c17, rule_ff, "4/C17", ASSUME_COMMON, keep)
 
 
-STREAM_EVENTS = ("sm.action.begin,sm.action.end,cinv.begin,cinv.end,scen.begin,scen.end,run.begin,run.end,h.phase,h.ff.load,h.fuzz.buf,fuzz.begin,fuzz.end,h.bits,h.overrun,"
+STREAM_EVENTS = ("hang,sm.action.begin,sm.action.end,cinv.begin,cinv.end,scen.begin,scen.end,run.begin,run.end,h.phase,h.ff.load,h.fuzz.buf,fuzz.begin,fuzz.end,h.bits,h.overrun,"
                  "h.prune.begin,h.prune.end,draw,call,inv.begin,inv.end,h.once.begin,h.once.end,harness.done")
 STREAM_MC = [("Stream", "StreamMC.cfg", "hold", ("quick", "thorough")),
              ("Stream", "StreamMC_pinned.cfg", "violate", ("quick", "thorough"))]
@@ -424,7 +424,7 @@ def c04(tier, seed, replay, keep):
 
 def c13(tier, seed, replay, keep):
     return engine_check("C13", tier, seed, replay, scen.c13, rule_fuzz, "4/C13", ASSUME_COMMON[:2], keep, mc=STREAM_MC[:1], events=STREAM_EVENTS,
-                        module="StreamTrace", cfg=INV_CFG)
+                        module="StreamTrace", cfg=INV_CFG, extra=("-verif.hang", "20s"))
 
 
 TABLE = {"C04": c04, "C13": c13, "C06": c06, "C17": c17, "C08": c08, "C10": c10, "C01": c01, "C02": c02, "C05": c05, "C07": c07, "C09": c09, "C11": c11}
